@@ -21,12 +21,12 @@ from gen_bins import compositions, blocks_from_widths, names_for, table_from_blo
 import gen_c08 as G
 
 PROP = "C08"
-RULE = ("coarsen_bins: every valid bin table with 1 chromosome of length <=7 and 2 chromosomes of length <=3 (all compositions; length 4: 45 sampled, all in the thorough tier) x k in {2,3,4,5,n+1}; "
+RULE = ("coarsen_bins: every valid bin table with 1 chromosome of length <=7 and 2 chromosomes of length <=3 (all compositions; length 4: 25 sampled, all in the thorough tier) x k in {2,3,4,5,n+1}; "
         "_greedy_prune_partition: every non-decreasing edge list from 0 of length 2..5 with values <=5 x maxlen 1..6; "
         "coarsen_cooler: corpus (D1 longer-last-bin tables, chromosomes shorter than k, empty cooler, empty rows at chunk edges, variable tables whose coarsening looks fixed, bin size 1, one-bin chromosomes) x k in {2,3,5,n+1} x chunksize in {1,2,7,nnz+1} (all 16 combinations for the first 4 corpus coolers, 2 chunk sizes per k for the others), "
         "seeded random coolers (fixed / variable / longer-last / variable-that-coarsens-to-fixed tables, 1-4 chromosomes, symmetric and square storage, 9 pixel patterns) x all four k x two chunk sizes, "
         "fixed-width tables of EVERY width 1..60 x k in {2,7} and 1..30 x k in {3,5} (thorough: 1..200 x {2,3,5,7}) at function level (chunk stream of CoolerCoarsener vs exact integer division) and end to end for widths 7,49,98,103,107,161,187,196 + random widths <= 2000 with >= 3 coarse bins per chromosome; nproc=2 and the CLI on a few, chains k1;k2 vs k1*k2 (fixed and variable tables), merge/coarsen interleavings, a second value column with agg max/min/sum incl. the D20 corpus (columns=[count,w], columns=[w]); "
-        "LARGE genomes with few bins (total length just below / at / above 2^31 and 2^32, every chromosome < 2^31; fixed bins of 100 Mb..1 Gb and variable tables; symmetric and square; k = 2, 3 and k collapsing every chromosome to one bin; chunk sizes 1/7/nnz+1; nproc 1 and 2; zoomify on the same bases); HISTORIES in one process (the same source and destination URI strings while the source file is rewritten in between: re-binned coarser/finer, other chromsizes, variable widths, fewer/more bins, square, nproc 1 then 2 and 2 then 1, several chunk sizes; a hand-made ladder over two alternating file names), every output judged for the data stored now; every level (copied bases included, k=1) of zoomify_cooler / `cooler zoomify --base-uri` files built from 1, 2 and 3 base coolers in every listing order (bases that are / are not multiples of each other) vs the block aggregation of its own base; fixed parameter scenarios (output URI in a nested group, append into an existing file, same-file in/out, re-run onto an existing group, mode=w, nproc 2/3 with an uneven span count, CLI -p/--append/-a/-o URI, dtypes full/partial dict, lock=, float64 counts, weight bin column on the input, trailing empty rows, CoolerCoarsener batchsize 2/3); non-trivial = nnz>0 and at least 2 old bins; distinct by input hash")
+        "every output judged also by its header attributes (storage-mode, bin-type/size, nbins, nchroms, nnz, sum, format) and by Cooler.matrix(balance=False)[:] vs the (symmetric completion of the) block aggregation; bases in legacy form (11 optional attributes removed one at a time, format-version 2; symmetric and square; merge inputs); LARGE genomes with few bins (total length just below / at / above 2^31 and 2^32, every chromosome < 2^31; fixed bins of 100 Mb..1 Gb and variable tables; symmetric and square; k = 2, 3 and k collapsing every chromosome to one bin; chunk sizes 1/7/nnz+1; nproc 1 and 2; zoomify on the same bases); HISTORIES in one process (the same source and destination URI strings while the source file is rewritten in between: re-binned coarser/finer, other chromsizes, variable widths, fewer/more bins, square, nproc 1 then 2 and 2 then 1, several chunk sizes; a hand-made ladder over two alternating file names), every output judged for the data stored now; every level (copied bases included, k=1) of zoomify_cooler / `cooler zoomify --base-uri` files built from 1, 2 and 3 base coolers in every listing order (bases that are / are not multiples of each other) vs the block aggregation of its own base; fixed parameter scenarios (output URI in a nested group, append into an existing file, same-file in/out, re-run onto an existing group, mode=w, nproc 2/3 with an uneven span count, CLI -p/--append/-a/-o URI, dtypes full/partial dict, lock=, float64 counts, weight bin column on the input, trailing empty rows, CoolerCoarsener batchsize 2/3); non-trivial = nnz>0 and at least 2 old bins; distinct by input hash")
 TRUSTED = ["pandas groupby(sort=True).aggregate('sum') is modelled as the canonical aggregate (Model/Pixels.v) and observed through CoolerCoarsener",
            "create() stores the concatenation of the chunk stream (property C01/C02, observed here through the output cooler)",
            "multiprocess.Pool.map is order preserving (source-pattern assertion on coarsen_cooler + nproc=2 runs)"]
@@ -132,7 +132,7 @@ def part_bins(ctx):
                     tables.append([c1, c2])
     if not thorough:   # two chromosomes with one of length 4: a seeded sample (exhaustive in the thorough tier)
         more = [[c1, c2] for L1 in range(1, 5) for L2 in range(1, 5) if max(L1, L2) == 4 for c1 in comps[L1] for c2 in comps[L2]]
-        tables += ctx.rng.sample(more, 45)
+        tables += ctx.rng.sample(more, 25)
     tables += [[[10, 10, 15]], [[7, 23]], [[10, 10], [35]], [[5, 5, 5], [5, 9]], [[3, 7, 3, 7]], [[3, 7, 3, 7, 4]], [[1], [1], [1]]]
     cases = []
     for widths in tables:
@@ -285,6 +285,9 @@ def oracle_check(case, res):
         return {"what": "storage mode", "got": res["mode"]}
     if res["chromsizes"] != G.sizes_of(blocks) or res["names"] != names_for(len(blocks)):
         return {"what": "chromosome table", "got": [res["names"], res["chromsizes"]]}
+    sem = G.semantics_bad(res, ebins, epx, case["symmetric"], tot)
+    if sem:
+        return sem
     if res["binsize"] is not None:
         b = res["binsize"]
         for blk in G.blocks_of_flat(ebins):
@@ -339,7 +342,7 @@ def part_api(ctx):
     for widths, symm, pix, note in CORPUS:
         blocks, pixels = build_case(rng, widths, symm, pix)
         inputs.append((widths, symm, pixels, note, thorough or len(inputs) < 4))
-    for i in range(60 if thorough else 12):
+    for i in range(60 if thorough else 9):
         widths, kind = G.random_widths(rng)
         symm = rng.random() < 0.6
         n = sum(len(w) for w in widths)
@@ -968,10 +971,57 @@ def sc_reused_argument_objects(d):
     return None
 
 
+LEGACY_ATTRS = ["storage-mode", "bin-type", "sum", "nchroms", "format", "format-version:2", "format-url", "generated-by",
+                "creation-date", "metadata", "genome-assembly"]
+
+
+def sc_legacy_attrs(d):
+    """bases in legacy form: optional header attributes removed one at a time (format-version set to 2); the result
+    follows the documented defaults of the reader (a missing storage-mode means symmetric-upper)"""
+    import cooler
+    blocks = blocks_from_widths(P_WIDTHS)
+    sq_px = sorted(P_PX + [[4, 1, 2], [7, 0, 5], [5, 5, 1]])
+    for symm, px in ((True, P_PX), (False, sq_px)):
+        for attr in (LEGACY_ATTRS if symm else ["bin-type", "sum", "nchroms", "format-version:2"]):
+            if attr == "storage-mode" and not symm:
+                continue        # lower-triangle data without the attribute is not a valid (symmetric-upper by default) cooler
+            a, o = d / "lg.cool", d / "lg_o.cool"
+            G.make_cooler(a, blocks, px, symm)
+            G.strip_attr(a, attr)
+            cooler.coarsen_cooler(str(a), str(o), 2, chunksize=3, mode="w")
+            bad = oracle_check({"widths": P_WIDTHS, "symmetric": symm, "pixels": px, "k": 2}, G.read_cooler(o))
+            if bad:
+                return dict(bad, legacy=f"base without '{attr}'", symmetric=symm)
+    # upper-triangular data stored as square, attribute removed: read as symmetric-upper by default
+    a, o = d / "lg.cool", d / "lg_o.cool"
+    G.make_cooler(a, blocks, P_PX, False)
+    G.strip_attr(a, "storage-mode")
+    cooler.coarsen_cooler(str(a), str(o), 3, chunksize=1, mode="w")
+    bad = oracle_check({"widths": P_WIDTHS, "symmetric": True, "pixels": P_PX, "k": 3}, G.read_cooler(o))
+    if bad:
+        return dict(bad, legacy="square-tagged upper-triangular base without 'storage-mode'")
+    # merge inputs in legacy form, then coarsen
+    b, m = d / "lg_b.cool", d / "lg_m.cool"
+    px_b = [[0, 0, 2], [2, 3, 1], [6, 7, 1]]
+    G.make_cooler(a, blocks, P_PX, True)
+    G.make_cooler(b, blocks, px_b, True)
+    for f_ in (a, b):
+        G.strip_attr(f_, "storage-mode")
+        G.strip_attr(f_, "sum")
+    cooler.merge_coolers(str(m), [str(a), str(b)], mergebuf=4)
+    cooler.coarsen_cooler(str(m), str(o), 2, chunksize=2, mode="w")
+    allpx = sorted([list(p) for p in P_PX] + px_b)
+    bad = oracle_check({"widths": P_WIDTHS, "symmetric": True, "pixels": allpx, "k": 2}, G.read_cooler(o))
+    if bad:
+        return dict(bad, legacy="coarsen(merge) of two inputs without 'storage-mode' and 'sum'")
+    return None
+
+
 SCENARIOS = {"nested/append/same-file/mode": sc_nested_append_samefile, "nproc with uneven span count": sc_nproc_uneven,
              "CLI -p/--append/-o URI": sc_cli_flags, "dtypes dict / lock": sc_dtypes_lock,
              "float counts, weight column, trailing empty rows": sc_shapes, "CoolerCoarsener batchsize": sc_batchsize,
-             "the same dtypes/agg/columns objects reused across calls (D34)": sc_reused_argument_objects}
+             "the same dtypes/agg/columns objects reused across calls (D34)": sc_reused_argument_objects,
+             "legacy / optional header attributes removed from the base": sc_legacy_attrs}
 
 
 def run_scenario(ctx_tmp, label, table):
